@@ -660,13 +660,18 @@ fn run_burst(cap: usize, threads: usize, per: usize, rounds: usize, prefill: usi
                 return format!("capacity-{}-refused-metric-{}-of-the-prefill", cap, i);
             }
         }
-        let barrier = Arc::new(std::sync::Barrier::new(threads));
+        // a spinning start line: the producers leave it within nanoseconds of each other
+        let barrier = Arc::new(AtomicU64::new(0));
         let mut hs = Vec::new();
         for t in 0..threads {
             let q = q.clone();
             let b = barrier.clone();
+            let nthreads = threads as u64;
             hs.push(std::thread::spawn(move || {
-                b.wait();
+                b.fetch_add(1, Ordering::AcqRel);
+                while b.load(Ordering::Acquire) < nthreads {
+                    std::hint::spin_loop();
+                }
                 let mut ok = 0usize;
                 for i in 0..per {
                     if q.emit(&format!("b{}.{}", t, i)).is_ok() {
@@ -994,6 +999,10 @@ fn run_stop0(rounds: usize) -> String {
                         break;
                     }
                     std::hint::spin_loop();
+                }
+                if !accepted {
+                    *failed.lock().unwrap() = Some("capacity-0:no-emit-was-accepted-within-2-s-although-the-worker-waits-for-one".to_string());
+                    return;
                 }
                 if accepted {
                     let t0 = Instant::now();
@@ -1369,7 +1378,7 @@ fn main() {
     }
     // large capacities (the documented 512 * 1024 included), nearly full when the burst arrives
     let big: Vec<(usize, usize, usize)> = if tier == "quick" {
-        vec![(100, 98, 40), (4097, 4095, 30), (5000, 4997, 30), (70000, 69998, 5), (524288, 524286, 2)]
+        vec![(100, 98, 200), (4097, 4095, 200), (5000, 4997, 200), (70000, 69998, 12), (524288, 524286, 3)]
     } else {
         vec![(100, 98, 800), (4097, 4095, 400), (5000, 4997, 400), (70000, 69998, 60), (524288, 524286, 20), (1 << 20, (1 << 20) - 3, 5)]
     };
@@ -1377,7 +1386,7 @@ fn main() {
         if !shard0 {
             break;
         }
-        if let Some(l) = run_line(&format!("qburst {} 4 2 {} {}", cap, rounds, prefill)) {
+        if let Some(l) = run_line(&format!("qburst {} 8 2 {} {}", cap, rounds, prefill)) {
             writeln!(out, "{}", l).unwrap();
             extra += 1;
         }
